@@ -62,6 +62,11 @@ ItemsQ6b == {"a", "b", "s"}
 KindQ6b == ("a" :> "ra" @@ "b" :> "ra" @@ "s" :> "rs")
 BodyQ6b == ("a" :> "suspend" @@ "b" :> "none" @@ "s" :> "none")
 ProgQ6b == ("c1" :> <<A("a"), A("b"), RESA("a")>> @@ "c2" :> <<S("s")>>)
+\* concurrent lane: pending barrier + failed unlock + suspension (finding F3: double pending-barrier reservation)
+ItemsQ6e == {"r1", "b1", "r2"}
+KindQ6e == ("r1" :> "ra" @@ "b1" :> "ba" @@ "r2" :> "ra")
+ProgQ6e == ("c1" :> <<A("r1"), BA("b1"), A("r2")>> @@ "c2" :> <<SUSP, RES>>)
+BodyQ6e == NoBody(ItemsQ6e)
 \* nesting across the inline-counter overflow (SCMAX = 3, SCHALF = 2)
 ItemsQ6c == {"a"}
 KindQ6c == ("a" :> "ra")
